@@ -1,6 +1,6 @@
 """Per-property registration data used by bin/mkmanifest (MANIFEST.json is generated)."""
 
-HOOK_COMMITS = ["1eccb32", "b6ff38a"]
+HOOK_COMMITS = ["1eccb32", "b6ff38a", "5d85079"]
 
 LEVEL_NOTE_COMMON = ("Trusted: TLC and the CommunityModules Json/Bitwise Java overrides; the Go toolchain; the harness "
                      "drivers; Go reference functions only where named, each re-validated against the TLA+ text by TLC "
@@ -215,4 +215,18 @@ CHECKS["C16"] = {
             "and deliver exactly the content; tiny plans are decoded by TLC itself, which also validates the encoder.",
     "design_ref": "DESIGN.md section 5 (C16)",
     "note": "The Apalache inductive check of the window invariant is not part of the registered commands.",
+}
+
+CHECKS["C18"] = {
+    "technique": "TLA+ model of the compressing reader (CompressingReader.tla: overflow writer and lifecycle over piece lengths) "
+                 "model-checked over all short read-size sequences; recorded Read calls and the overflow bookkeeping (verif accessor) "
+                 "validated by TLC (CompressingReader_Trace); the concatenated output judged by LZ4Frame_Trace (ParseStrict)",
+    "text": "MC_CompressingReader proves for every sequence of up to five read sizes against five piece layouts that each call returns "
+            "at most len(p) bytes, makes progress when len(p) > 0, that produced bytes are delivered exactly once in order, io.EOF comes "
+            "only when everything was delivered and a source error ends the stream. On the real object, every recorded call (len(p), n, "
+            "error class, state, bytes waiting in the overflow buffer) must be the model's for the piece layout of that very frame, under "
+            "fixed, layout-derived and seeded read patterns, short-reading and failing sources; the concatenated output must be one "
+            "strictly valid frame with the applied options that decodes to the source.",
+    "design_ref": "DESIGN.md section 5 (C18)",
+    "note": "Piece layout is derived from the reference parser's view of a probe run of the same input and options.",
 }
